@@ -486,7 +486,9 @@ func (e *Executor) LoadDependencyOutputs(
 		)
 		loadErr := e.registry.LoadOutputs(ctx, localDep, targetResult, progress)
 
-		if loadErr != nil || localDep.SkipsCache() {
+		// A no-cache dependency has nothing in the cache to load its outputs from. It only
+		// has to be re-run if it did not already run (and leave its outputs) in this build.
+		if loadErr != nil || (localDep.SkipsCache() && !localDep.OutputsLoaded) {
 			logger.Debugf(
 				"%s: failed to load output for dependency %s (re-rerunning): err=%v no-cache=%t",
 				target.Label,
